@@ -651,6 +651,89 @@ example : wfReq exP ⟨[⟨"a", 0⟩], exOuts, true⟩ = true ∧
 example : okOf (specBuild exP ⟨exIns, [⟨"y", 1⟩], true⟩) = some ⟨[⟨"b", "1:[]"⟩], [⟨"y", "1:[]"⟩], [1]⟩ ∧
     okOf (specBuild exP ⟨exIns, [⟨"y", 1⟩], false⟩) = some ⟨[⟨"a", "7:[]"⟩, ⟨"b", "1:[]"⟩], [⟨"y", "1:[]"⟩], [1]⟩ := by decide
 
+/-! ## Mini-round: `NoClash` discharged from the executable test; the flag as a request transformation -/
+
+/-- The Boolean test the driver evaluates as `noclash` is **exact**: on any finite support of the store
+    (the driver: `range n`, the store being `none` outside the preset entries) it holds iff `NoClash` does. -/
+theorem noclash_check_exact (vs : List Nat) (req : Request) (s : Store)
+    (hsupp : ∀ v, v ∉ vs → s v = none) : noClashOn vs req s = true ↔ NoClash req s :=
+  ⟨noClash_of_noClashOn vs req s hsupp, noClashOn_of_noClash vs req s⟩
+
+/-- `build_statements_refine_spec` with **both** hypotheses executable: whenever the two Booleans the driver
+    reports for a request (`wfreq`, `noclash`) are true, the statements of `build` extracted on this run return
+    exactly `specBuild` — for every set order. Nothing about the request or the store is assumed beyond what is
+    evaluated (and that the store names no Var outside `vs`). -/
+theorem build_statements_refine_spec_checked (P : List Obj) (π : List Nat → List Nat)
+    (hπ : ∀ l, (π l).Perm l) (req : Request) (s : Store) (vs : List Nat)
+    (hsupp : ∀ v, v ∉ vs → s v = none)
+    (hwf : wfReq P req = true) (hnc : noClashOn vs req s = true) :
+    (FrontIR.run buildIR ir P π req s).2 = specBuild P req :=
+  build_statements_refine_spec P π hπ req s hwf (noClash_of_noClashOn vs req s hsupp hnc)
+
+/-- Non-vacuity: the witness request with a preset-named bystander (`"w"` on Var 2, unlisted) passes the test;
+    the known-finding witness (preset name = key) does not. -/
+example : noClashOn [0, 1, 2] ⟨exIns, [⟨"y", 1⟩], true⟩ (fun v => if v = 2 then some "w" else none) = true ∧
+    noClashOn [0, 1, 2] ⟨[⟨"k", 0⟩], [⟨"y", 2⟩], true⟩ (fun v => if v = 1 then some "k" else none) = false := by
+  decide
+
+/-- Dropping commutes with listing: at the level of the specification, `drop_unused_inputs=True` is the plain
+    build of the request whose `inputs` are filtered to the entries some output depends on. -/
+theorem spec_drop_eq_filtered (P : List Obj) (ins outs : List Entry) :
+    specBuild P ⟨ins, outs, true⟩ =
+      specBuild P ⟨ins.filter (fun e => dependsOn P outs e.obj), outs, false⟩ := by
+  have hc : ∀ a ∈ freeArgs P outs, (ins.map (·.obj)).contains a =
+      ((ins.filter (fun e => (freeArgs P outs).contains e.obj)).map (·.obj)).contains a := by
+    intro a ha
+    rw [Bool.eq_iff_iff, List.contains_iff_mem, List.contains_iff_mem, List.mem_map, List.mem_map]
+    constructor
+    · intro ⟨e, he, h⟩
+      subst h
+      exact ⟨e, List.mem_filter.mpr ⟨he, List.contains_iff_mem.mpr ha⟩, rfl⟩
+    · intro ⟨e, he, h⟩
+      exact ⟨e, (List.mem_filter.mp he).1, h⟩
+  have hall : (freeArgs P outs).all (fun a => (ins.map (·.obj)).contains a) =
+      (freeArgs P outs).all (fun a =>
+        ((ins.filter (fun e => (freeArgs P outs).contains e.obj)).map (·.obj)).contains a) := by
+    rw [Bool.eq_iff_iff, List.all_eq_true, List.all_eq_true]
+    exact ⟨fun h a ha => (hc a ha) ▸ h a ha, fun h a ha => (hc a ha).symm ▸ h a ha⟩
+  unfold specBuild dependsOn
+  simp only [hall, ↓reduceIte, Bool.false_eq_true]
+
+/-- A well-formed request stays well-formed when entries are removed from `inputs`. -/
+theorem wellFormed_filter (P : List Obj) (ins outs : List Entry) (d d' : Bool) (p : Entry → Bool)
+    (h : WellFormed P ⟨ins, outs, d⟩) : WellFormed P ⟨ins.filter p, outs, d'⟩ :=
+  { inputsArgs := fun e he => h.inputsArgs e (List.mem_filter.mp he).1
+    outputsVars := h.outputsVars
+    outputsNonempty := h.outputsNonempty
+    keysNodup := h.keysNodup.sublist ((List.filter_sublist).map _)
+    objsNodup := h.objsNodup.sublist ((List.filter_sublist).map _)
+    namesDisjoint := fun e he hm => h.namesDisjoint e he (by
+      obtain ⟨e', he', hn⟩ := List.mem_map.mp hm
+      exact List.mem_map.mpr ⟨e', (List.mem_filter.mp he').1, hn⟩)
+    programOk := h.programOk
+    notFormals := fun e he => h.notFormals e (List.mem_filter.mp he).1 }
+
+/-- **The flag is a request transformation** (real `build`, every set order on either side): building with
+    `drop_unused_inputs=True` returns exactly what the plain build of the same outputs returns when `inputs` is
+    first filtered to the entries some output depends on — same model or same KeyError. In particular re-building
+    a dropped model's own input list without the flag reproduces it (idempotence of dropping). -/
+theorem drop_is_filter_then_plain (P : List Obj) (π π' : List Nat → List Nat)
+    (hπ : ∀ l, (π l).Perm l) (hπ' : ∀ l, (π' l).Perm l) (ins outs : List Entry) (s : Store)
+    (hwf : WellFormed P ⟨ins, outs, true⟩) (hnc : NoClash ⟨ins, outs, true⟩ s)
+    (hnc' : NoClash ⟨ins.filter (fun e => dependsOn P outs e.obj), outs, false⟩ s) :
+    (build ir P π true ⟨ins, outs, true⟩ s).2 =
+      (build ir P π' true ⟨ins.filter (fun e => dependsOn P outs e.obj), outs, false⟩ s).2 := by
+  rw [build_refines_spec P π hπ _ s hwf hnc,
+    build_refines_spec P π' hπ' _ s (wellFormed_filter P ins outs true false _ hwf) hnc',
+    spec_drop_eq_filtered]
+
+/-- Non-vacuity: on the witness program with output `y := b` the flag drops `a`; both sides are the model with
+    the single input `b`, under opposite set orders. -/
+example :
+    okOf (build ir exP id true ⟨exIns, [⟨"y", 1⟩], true⟩ (fun _ => none)).2 = some ⟨[⟨"b", "1:[]"⟩], [⟨"y", "1:[]"⟩], [1]⟩ ∧
+    okOf (build ir exP List.reverse true ⟨exIns.filter (fun e => dependsOn exP [⟨"y", 1⟩] e.obj), [⟨"y", 1⟩], false⟩
+      (fun _ => none)).2 = some ⟨[⟨"b", "1:[]"⟩], [⟨"y", "1:[]"⟩], [1]⟩ := by decide
+
 /-- Size boundary (tie G): the only functions on the build path that call themselves are the three
     whose recursion follows *nesting* (`Builder.discover` over subgraphs, `_strip_dim_symbol` over
     Sequence/Optional types, `rename_in_graph` over the subgraphs of an inlined model). Nothing
